@@ -16,7 +16,7 @@ func init() {
 		Rule: "rapid-drawn parameter declarations (13 primitive types x {query scalar, query array, header} x required/optional x {inline, schema $ref, component parameter} x {operation, path-item, path-item overridden at operation level}; 1-6 per operation), and per operation rapid-drawn requests: per parameter a cardinality {absent, one, many} and per value a lexeme of its type's classes (canonical, boundary, out-of-range, garbage, empty, don't-care), built with url.Values.Encode / Header.Add; " +
 			"oracle: reference parser (three-valued lexical spaces, values via math/big): error iff a required parameter is absent, a scalar has several values or a value is outside the lexical space/range; the error names an offending parameter; on success every field equals the reference typed value and absent optionals are unset with zero Value; requests containing a don't-care lexeme only count for no-panic; " +
 			"non-trivial = request with a non-canonical lexeme or non-unit cardinality; distinct by (operation, per-parameter cardinality and lexeme classes)",
-		Assume: []string{"lexical don't-cares of DESIGN.md §6.2 (+5, leading zeros, NaN/Inf, 1/0/t/f, lower-case t/z, second 60 …)", "header values are field-value text without leading/trailing whitespace", "no security on these operations (it injects header fields)"},
+		Assume:    []string{"lexical don't-cares of DESIGN.md §6.2 (+5, leading zeros, NaN/Inf, 1/0/t/f, lower-case t/z, second 60 …)", "header values are field-value text without leading/trailing whitespace", "no security on these operations (it injects header fields)"},
 		Main:      c04Main,
 		MinNonTrv: 2000,
 	})
@@ -25,7 +25,7 @@ func init() {
 		Rule: "C03's template sets with typed path variables (string, integer/int32/int64, number/float, boolean, date-time, $ref to a primitive component, component path parameters; adjacent variables; declaration order independent of template order; path-item vs operation level) x base-path forms; requests place per variable a lexeme of its type's classes or the empty segment; " +
 			"oracle (conditional on dispatch to the intended template): a variable segment that is empty or outside the lexical space => Parse() fails naming that parameter; otherwise each field equals the typed value of exactly its own segment; " +
 			"non-trivial = dispatched request to a template with >=1 variable; distinct by (template, per-position lexeme class)",
-		Assume: []string{"whether the dispatch itself is right is C03's question", "lexical don't-cares of DESIGN.md §6.2"},
+		Assume:    []string{"whether the dispatch itself is right is C03's question", "lexical don't-cares of DESIGN.md §6.2"},
 		Main:      c05Main,
 		MinNonTrv: 500,
 	})
